@@ -255,7 +255,13 @@ func (r *run) checkVerifyEntry(p *reportProc) bool {
 		if r.sc.Delay {
 			tag = "C09"
 		}
-		r.viol(tag, "a re-stack with verification active called Verify %d times, want exactly 1", len(vl)-r.verifSeen)
+		extra := ""
+		if !p.valid && r.d != nil && r.cur >= 0 && r.d.View() != r.cfgs[r.cur].ptr {
+			// C05: "... or the last view that verified, if that stack does not"
+			tag += ",C05"
+			extra = "; the stack does not verify, yet the view moved away from the last version that verified"
+		}
+		r.viol(tag, "a re-stack with verification active called Verify %d times, want exactly 1%s", len(vl)-r.verifSeen, extra)
 		return false
 	}
 	e := vl[r.verifSeen]
